@@ -26,13 +26,27 @@ type c06route struct {
 	path   string
 	kind   string // open | jwt | apikey
 	marker string
+	method string // "" = GET
 }
 
+// Two verbs share the path /notes: one open, one protected — each has its own body and its own
+// directives, in both execution modes.
 var c06routes = []c06route{
-	{"/open", "open", "open-ran-11"},
-	{"/jwt", "jwt", "jwt-ran-22"},
-	{"/key", "apikey", "key-ran-33"},
-	{"/jwt2", "jwt", "jwt2-ran-44"},
+	{"/open", "open", "open-ran-11", ""},
+	{"/jwt", "jwt", "jwt-ran-22", ""},
+	{"/key", "apikey", "key-ran-33", ""},
+	{"/jwt2", "jwt", "jwt2-ran-44", ""},
+	{"/notes", "open", "notes-list-55", "GET"},
+	{"/notes", "jwt", "notes-create-66", "POST"},
+	{"/vault", "apikey", "vault-read-77", "GET"},
+	{"/vault", "open", "vault-ping-88", "DELETE"},
+}
+
+func (rt c06route) verb() string {
+	if rt.method == "" {
+		return "GET"
+	}
+	return rt.method
 }
 
 type c06req struct {
@@ -240,7 +254,7 @@ func c06build(s *sim.Sim, p *sim.Params) *c06sys {
 	}
 	var src strings.Builder
 	for _, rt := range c06routes {
-		fmt.Fprintf(&src, "@ GET %s {\n", rt.path)
+		fmt.Fprintf(&src, "@ %s %s {\n", rt.verb(), rt.path)
 		if rt.kind != "open" {
 			fmt.Fprintf(&src, "  + auth(%s)\n", rt.kind)
 		}
@@ -251,7 +265,7 @@ func c06build(s *sim.Sim, p *sim.Params) *c06sys {
 		s.InfraFail("C06: cannot build server: " + err.Error())
 	}
 	y.do = func(r *c06req) {
-		resp := sv.do(simReq{path: r.route.path, remote: c06peer(y.v6, r.client, 30000+int(r.call%20000)), headers: r.hdr})
+		resp := sv.do(simReq{method: r.route.verb(), path: r.route.path, remote: c06peer(y.v6, r.client, 30000+int(r.call%20000)), headers: r.hdr})
 		r.status, r.body = resp.status, resp.body
 	}
 	return y
@@ -276,7 +290,7 @@ func c06Run(s *sim.Sim, p *sim.Params) {
 		y.cfg.MaxLockout + 2*time.Millisecond, y.cfg.ResetAfter - time.Millisecond, y.cfg.ResetAfter + time.Millisecond, -1 /* align to the next cleanup tick */, 4 * time.Minute}
 	routes := c06routes
 	if y.direct {
-		routes = []c06route{{"/jwt", "jwt", "jwt-ran-22"}}
+		routes = []c06route{{"/jwt", "jwt", "jwt-ran-22", ""}}
 	}
 	type step struct {
 		gap time.Duration
@@ -364,7 +378,7 @@ func c06check(s *sim.Sim, y *c06sys, hist []*c06req, sample *[]string) {
 		// no response may carry another route's marker
 		for _, o := range c06routes {
 			if o.marker != r.route.marker && strings.Contains(r.body, o.marker) {
-				s.Fail("oracle", "wrong-route-body", fmt.Sprintf("%s answered with the body of %s", r.route.path, o.path))
+				s.Fail("oracle", "wrong-route-body", fmt.Sprintf("%s %s answered with the body of %s %s", r.route.verb(), r.route.path, o.verb(), o.path))
 			}
 		}
 		switch r.status {
@@ -414,7 +428,7 @@ func c06check(s *sim.Sim, y *c06sys, hist []*c06req, sample *[]string) {
 		var lastFailAt time.Duration = -1
 		var lockPossibleUntil time.Duration = -1
 		for _, o := range hist {
-			if o == r || o.client != r.client || o.route.path != r.route.path || o.call > r.ret {
+			if o == r || o.client != r.client || o.route.marker != r.route.marker || o.call > r.ret {
 				continue
 			}
 			if o.badCred {
@@ -436,7 +450,7 @@ func c06check(s *sim.Sim, y *c06sys, hist []*c06req, sample *[]string) {
 				// flight together with it may have set a lockout that the success does not clear
 				clean := true
 				for _, b := range hist {
-					if b.client == o.client && b.route.path == o.route.path && b.badCred && b.call <= o.ret && b.ret >= o.call {
+					if b.client == o.client && b.route.marker == o.route.marker && b.badCred && b.call <= o.ret && b.ret >= o.call {
 						clean = false
 						break
 					}
